@@ -261,7 +261,8 @@ Section Renaming.
     (forall y, In y (default_names p') -> exists t, In t ts /\ y = newname t /\ In (tname t) (default_names p)) /\
     (params_only p = true -> params_only p' = true) /\
     (catch_params_only p = true -> catch_params_only p' = true) /\
-    (core_d p = true -> core_d p' = true) /\ (pcore_d p = true -> pcore_d p' = true) /\ (core p = true -> core p' = true).
+    (core_d p = true -> core_d p' = true) /\ (pcore_d p = true -> pcore_d p' = true) /\ (core p = true -> core p' = true) /\
+    (core_x p = true -> core_x p' = true) /\ (pcore_x p = true -> pcore_x p' = true).
 
   Definition rr_stmt (p : prog) : Prop :=
     forall e fs cur ca n rest,
@@ -304,20 +305,21 @@ Section Renaming.
       destruct (resolve e fs cur ca n k) as [r n1]. cbn [fst snd map app rename_with hd tl] in *.
       intros HDt. specialize (G HDt).
       destruct (rename_with (map newname r ++ rest) k) as [k' l']. destruct G as (E0 & R & Hl & Hm).
-      split; [exact E0|]. destruct R as (R1 & R2 & R3 & R4 & R5 & R6 & R7 & R8 & R9 & R10 & R11).
-      unfold RR. cbn [resolve lexdecls vardecls headdecls allnames default_names params_only catch_params_only core_d pcore_d core map].
+      split; [exact E0|]. destruct R as (R1 & R2 & R3 & R4 & R5 & R6 & R7 & R8 & R9 & R10 & R11 & R12 & R13).
+      unfold RR. cbn [resolve lexdecls vardecls headdecls allnames default_names params_only catch_params_only core_d pcore_d core core_x pcore_x map].
       rewrite R1, Hl, R5. repeat apply conj; try reflexivity; try assumption; try discriminate.
       + intros y [<-|Hy].
         * exists (lookup e x). split; [left; reflexivity|]. split; [reflexivity|]. left. symmetry. apply tname_lookup.
         * destruct (R6 y Hy) as (t & T1 & T2 & T3). exists t. split; [right; exact T1|]. split; [exact T2|right; exact T3].
       + intros H. apply andb_true_iff in H. destruct H as [H1 H2]. rewrite (Hm H1), (R10 H2). reflexivity.
+      + intros H. apply andb_true_iff in H. destruct H as [H1 H2]. rewrite (Hm H1), (R13 H2). reflexivity.
     - intros e fs cur ca n rest Hok HD Hinc. cbn [resolve allnames] in *.
       specialize (G e fs cur ca n rest Hok HD Hinc).
       destruct (resolve e fs cur ca n k) as [r n1]. cbn [fst snd map app rename_with hd tl] in *.
       intros HDt. specialize (G HDt).
       destruct (rename_with (map newname r ++ rest) k) as [k' l']. destruct G as (E0 & R & Hl & Hm).
-      split; [exact E0|]. destruct R as (R1 & R2 & R3 & R4 & R5 & R6 & R7 & R8 & R9 & R10 & R11).
-      unfold RR. cbn [resolve lexdecls vardecls headdecls allnames default_names params_only catch_params_only core_d pcore_d core map].
+      split; [exact E0|]. destruct R as (R1 & R2 & R3 & R4 & R5 & R6 & R7 & R8 & R9 & R10 & R11 & R12 & R13).
+      unfold RR. cbn [resolve lexdecls vardecls headdecls allnames default_names params_only catch_params_only core_d pcore_d core core_x pcore_x map].
       rewrite R1, Hl, R5. repeat apply conj; try reflexivity; try assumption; try discriminate.
       intros y [<-|Hy].
       * exists (lookup e x). split; [left; reflexivity|]. split; [reflexivity|]. left. symmetry. apply tname_lookup.
@@ -331,8 +333,8 @@ Section Renaming.
     destruct (resolve e fs cur ca n k) as [r n1]. cbn [fst snd map app rename_with hd tl] in *.
     intros HDt. inversion HDt as [|? ? _ HDr]; subst. specialize (IH HDr).
     destruct (rename_with (map newname r ++ rest) k) as [k' l']. destruct IH as (E0 & R).
-    split; [exact E0|]. destruct R as (R1 & R2 & R3 & R4 & R5 & R6 & R7 & R8 & R9 & R10 & R11).
-    unfold RR. cbn [resolve lexdecls vardecls headdecls allnames default_names params_only catch_params_only core_d pcore_d core map].
+    split; [exact E0|]. destruct R as (R1 & R2 & R3 & R4 & R5 & R6 & R7 & R8 & R9 & R10 & R11 & R12 & R13).
+    unfold RR. cbn [resolve lexdecls vardecls headdecls allnames default_names params_only catch_params_only core_d pcore_d core core_x pcore_x map].
     rewrite R1, R2, R3, R4, R5.
     destruct d; cbn [is_var is_lex newname retarget app map];
       (repeat apply conj; try reflexivity; try assumption; try discriminate;
@@ -361,10 +363,10 @@ Section Renaming.
     destruct (rename_with (map newname rk ++ rest) k) as [k' l2].
     destruct IHk' as (K0 & K).
     split; [exact K0|].
-    destruct B as (B1 & B2 & B3 & B4 & B5 & B6 & B7 & B8 & B9 & B10 & B11).
-    destruct K as (K1 & K2 & K3 & K4 & K5 & K6 & K7 & K8 & K9 & K10 & K11).
+    destruct B as (B1 & B2 & B3 & B4 & B5 & B6 & B7 & B8 & B9 & B10 & B11 & B12 & B13).
+    destruct K as (K1 & K2 & K3 & K4 & K5 & K6 & K7 & K8 & K9 & K10 & K11 & K12 & K13).
     cbn [ren_env map ren_entry] in B1. rewrite <- B2 in B1. fold (ren_env e) in B1.
-    unfold RR. cbn [resolve lexdecls vardecls headdecls allnames default_names params_only catch_params_only core_d pcore_d core].
+    unfold RR. cbn [resolve lexdecls vardecls headdecls allnames default_names params_only catch_params_only core_d pcore_d core core_x pcore_x].
     rewrite B1, K1, K2, B3, K3, K4, B5, K5, <- !map_app.
     repeat apply conj; try reflexivity; try discriminate.
     - intros y Hy. apply in_app_iff in Hy. destruct Hy as [Hy|Hy].
@@ -374,6 +376,7 @@ Section Renaming.
         exists t. split; [apply in_app_iff; right; exact T1|]. split; [exact T2|apply in_app_iff; right; exact T3].
     - intros H. apply andb_true_iff in H. destruct H as [H1 H2]. rewrite (B9 H1), (K9 H2). reflexivity.
     - intros H. apply andb_true_iff in H. destruct H as [H1 H2]. rewrite (B11 H1), (K11 H2). reflexivity.
+    - intros H. apply andb_true_iff in H. destruct H as [H1 H2]. rewrite (B12 H1), (K12 H2). reflexivity.
   Qed.
 
   Lemma newname_notin t L s a :
@@ -406,7 +409,9 @@ Section Renaming.
     (disjointb (default_names ps) (vardecls b ++ lexdecls b) = true ->
      disjointb (default_names ps') (vardecls b' ++ lexdecls b') = true) /\
     (disjointb (allnames ps ++ allnames b) (headdecls k) = true ->
-     disjointb (allnames ps' ++ allnames b') (headdecls k') = true).
+     disjointb (allnames ps' ++ allnames b') (headdecls k') = true) /\
+    (forall x, In x (headdecls ps ++ vardecls b ++ lexdecls b) -> D n false x) /\
+    (forall x, In x (headdecls k) -> D cur ca x).
   Proof.
     intros IHps IHb IHk Hok1 HD1 Hok HD Hinc Ep Eb Ek HDt.
     pose proof (resolve_counter_mono ps ((n, false, headdecls ps) :: e1) n n false (S n)) as Hm1. rewrite Ep in Hm1. cbn [snd] in Hm1.
@@ -445,7 +450,12 @@ Section Renaming.
     split; [exact K0|]. split; [exact P|]. split; [exact B|]. split; [exact K|].
     destruct P as (P1 & P2 & P3 & P4 & P5 & P6 & _). destruct B as (B1 & B2 & B3 & B4 & B5 & _). destruct K as (_ & _ & _ & K4 & _).
     cbn [ren_env map ren_entry] in P1, B1. fold (ren_env e1) in P1, B1. rewrite !map_app in B1. rewrite <- P4 in P1. rewrite <- P4, <- B2, <- B3 in B1.
-    split; [exact P1|]. split; [exact B1|]. split.
+    split; [exact P1|]. split; [exact B1|].
+    assert (Hlast : (forall x, In x (headdecls ps ++ vardecls b ++ lexdecls b) -> D n false x) /\ (forall x, In x (headdecls k) -> D cur ca x)).
+    { split.
+      - intros x Hx. apply in_app_iff in Hx. destruct Hx as [Hx|Hx]; [apply Dhead|apply Dbody]; exact Hx.
+      - intros x Hx. apply (Dt_in rk); [exact HDk|apply Hhk; exact Hx]. }
+    split; [|split; [|exact Hlast]].
     - intros Hdis. pose proof (disjointb_spec _ _ Hdis) as Hdis'.
       rewrite B3, B2, <- map_app. unfold disjointb. apply forallb_forall. intros y Hy. apply negb_true_iff. apply mem_not_in.
       destruct (P6 y Hy) as (t & T1 & -> & T3).
@@ -494,14 +504,14 @@ Section Renaming.
       pose proof (resolve_names b ((n, false, headdecls ps ++ vardecls b ++ lexdecls b) :: e) n n false n1) as Hnb. rewrite Eb in Hnb. cbn [fst] in Hnb.
       destruct (rename_with (map newname (rp ++ rb ++ rk) ++ rest) ps) as [ps' l1].
       destruct (rename_with l1 b) as [b' l2]. destruct (rename_with l2 k) as [k' l3].
-      destruct C as (C0 & P & B & K & C1 & C2 & C3 & C4). split; [exact C0|].
-      destruct P as (P1 & P2 & P3 & P4 & P5 & P6 & P7 & P8 & P9 & P10 & P11).
-      destruct B as (B1 & B2 & B3 & B4 & B5 & B6 & B7 & B8 & B9 & B10 & B11).
-      destruct K as (K1 & K2 & K3 & K4 & K5 & K6 & K7 & K8 & K9 & K10 & K11).
+      destruct C as (C0 & P & B & K & C1 & C2 & C3 & C4 & C5 & C6). split; [exact C0|].
+      destruct P as (P1 & P2 & P3 & P4 & P5 & P6 & P7 & P8 & P9 & P10 & P11 & P12 & P13).
+      destruct B as (B1 & B2 & B3 & B4 & B5 & B6 & B7 & B8 & B9 & B10 & B11 & B12 & B13).
+      destruct K as (K1 & K2 & K3 & K4 & K5 & K6 & K7 & K8 & K9 & K10 & K11 & K12 & K13).
       assert (Hdn : DN (rp ++ rb ++ rk) (allnames ps ++ allnames b ++ default_names k) (allnames ps' ++ allnames b' ++ default_names k')).
       { rewrite P5, B5, <- Hnp, <- Hnb. apply DN_app; [apply DN_names|]. apply DN_app; [apply DN_names|exact K6]. }
       split.
-      - unfold RR. cbn [resolve lexdecls vardecls headdecls allnames default_names params_only catch_params_only core_d pcore_d core app].
+      - unfold RR. cbn [resolve lexdecls vardecls headdecls allnames default_names params_only catch_params_only core_d pcore_d core core_x pcore_x app].
         repeat apply conj; try discriminate.
         + rewrite C1, C2, K1, !map_app. reflexivity.
         + exact K2.
@@ -516,7 +526,14 @@ Section Renaming.
           rewrite (P10 H1), (C3 H2), (B9 H3), (C4 H4), (K10 H5). reflexivity.
         + intros H. apply andb_true_iff in H. destruct H as [H H3]. apply andb_true_iff in H. destruct H as [H1 H2].
           rewrite (P7 H1), (B11 H2), (K11 H3). reflexivity.
-      - unfold RR. cbn [resolve lexdecls vardecls headdecls allnames default_names params_only catch_params_only core_d pcore_d core app].
+        + intros H. apply andb_true_iff in H. destruct H as [H _]. apply andb_true_iff in H. destruct H as [H H4].
+          apply andb_true_iff in H. destruct H as [H H3]. apply andb_true_iff in H. destruct H as [H1 H2].
+          rewrite (P13 H1), (C3 H2), (B12 H3), (K12 H4). reflexivity.
+        + intros H. apply andb_true_iff in H. destruct H as [H _]. apply andb_true_iff in H. destruct H as [H H5].
+          apply andb_true_iff in H. destruct H as [H H4]. apply andb_true_iff in H. destruct H as [H H3].
+          apply andb_true_iff in H. destruct H as [H1 H2].
+          rewrite (P13 H1), (C3 H2), (B12 H3), (C4 H4), (K13 H5). reflexivity.
+      - unfold RR. cbn [resolve lexdecls vardecls headdecls allnames default_names params_only catch_params_only core_d pcore_d core core_x pcore_x app].
         repeat apply conj; try discriminate.
         + rewrite C1, C2, K1, !map_app. reflexivity.
         + exact K2.
@@ -531,6 +548,13 @@ Section Renaming.
           rewrite (P10 H1), (C3 H2), (B9 H3), (C4 H4), (K10 H5). reflexivity.
         + intros H. apply andb_true_iff in H. destruct H as [H H3]. apply andb_true_iff in H. destruct H as [H1 H2].
           rewrite (P7 H1), (B11 H2), (K11 H3). reflexivity.
+        + intros H. apply andb_true_iff in H. destruct H as [H H4].
+          apply andb_true_iff in H. destruct H as [H H3]. apply andb_true_iff in H. destruct H as [H1 H2].
+          rewrite (P13 H1), (C3 H2), (B12 H3), (K12 H4). reflexivity.
+        + intros H. apply andb_true_iff in H. destruct H as [H H5].
+          apply andb_true_iff in H. destruct H as [H H4]. apply andb_true_iff in H. destruct H as [H H3].
+          apply andb_true_iff in H. destruct H as [H1 H2].
+          rewrite (P13 H1), (C3 H2), (B12 H3), (C4 H4), (K13 H5). reflexivity.
     }
     split.
     - intros e fs cur ca n rest Hok HD Hinc. cbn [allnames app] in Hinc. cbn [resolve].
@@ -567,12 +591,12 @@ Section Renaming.
     cbn [rename_with hd tl].
     destruct (rename_with (map newname (rp ++ rb ++ rk) ++ rest) ps) as [ps' l1].
     destruct (rename_with l1 b) as [b' l2]. destruct (rename_with l2 k) as [k' l3].
-    destruct C as (C0 & P & B & K & C1 & C2 & C3 & C4). split; [exact C0|].
-    destruct P as (P1 & P2 & P3 & P4 & P5 & P6 & P7 & P8 & P9 & P10 & P11).
-    destruct B as (B1 & B2 & B3 & B4 & B5 & B6 & B7 & B8 & B9 & B10 & B11).
-    destruct K as (K1 & K2 & K3 & K4 & K5 & K6 & K7 & K8 & K9 & K10 & K11).
+    destruct C as (C0 & P & B & K & C1 & C2 & C3 & C4 & C5 & C6). split; [exact C0|].
+    destruct P as (P1 & P2 & P3 & P4 & P5 & P6 & P7 & P8 & P9 & P10 & P11 & P12 & P13).
+    destruct B as (B1 & B2 & B3 & B4 & B5 & B6 & B7 & B8 & B9 & B10 & B11 & B12 & B13).
+    destruct K as (K1 & K2 & K3 & K4 & K5 & K6 & K7 & K8 & K9 & K10 & K11 & K12 & K13).
     cbn [ren_env map ren_entry] in C1, C2. fold (ren_env e) in C1, C2.
-    unfold RR. cbn [resolve lexdecls vardecls headdecls allnames default_names params_only catch_params_only core_d pcore_d core app].
+    unfold RR. cbn [resolve lexdecls vardecls headdecls allnames default_names params_only catch_params_only core_d pcore_d core core_x pcore_x app].
     repeat apply conj; try discriminate.
     - rewrite C1, C2, K1. cbn [map retarget app]. rewrite !map_app. reflexivity.
     - exact K2.
@@ -583,6 +607,21 @@ Section Renaming.
                  ([f n true g] ++ allnames ps' ++ allnames b' ++ default_names k')).
       apply DN_app; [exact (DN_names [TBind n true g])|].
       rewrite P5, B5, <- Hnp, <- Hnb. apply DN_app; [apply DN_names|]. apply DN_app; [apply DN_names|exact K6].
+    - intros H. apply andb_true_iff in H. destruct H as [H H5]. apply andb_true_iff in H. destruct H as [H H4].
+      apply andb_true_iff in H. destruct H as [H H3]. apply andb_true_iff in H. destruct H as [H1' H2].
+      rewrite (P13 H1'), (C3 H2), (B12 H3), (K12 H4). cbn [andb]. apply negb_true_iff. apply mem_not_in.
+      rewrite P4, B3, B2, <- !map_app.
+      apply (newname_notin (TBind n true g)); [exact Dg|apply Hinc; left; reflexivity|exact C5|].
+      apply negb_true_iff in H5. apply mem_not_in. exact H5.
+    - intros H. apply andb_true_iff in H. destruct H as [H H6]. apply andb_true_iff in H. destruct H as [H H5].
+      apply andb_true_iff in H. destruct H as [H H4]. apply andb_true_iff in H. destruct H as [H H3].
+      apply andb_true_iff in H. destruct H as [H1' H2]. apply andb_true_iff in H6. destruct H6 as [H6 H7].
+      rewrite (P13 H1'), (C3 H2), (B12 H3), (C4 H4), (K13 H5). cbn [andb]. apply andb_true_iff. split; apply negb_true_iff; apply mem_not_in.
+      + rewrite P4, B3, B2, <- !map_app.
+        apply (newname_notin (TBind n true g)); [exact Dg|apply Hinc; left; reflexivity|exact C5|].
+        apply negb_true_iff in H6. apply mem_not_in. exact H6.
+      + rewrite K4. apply (newname_notin (TBind n true g)); [exact Dg|apply Hinc; left; reflexivity|exact C6|].
+        apply negb_true_iff in H7. apply mem_not_in. exact H7.
   Qed.
 
   Lemma is_nil_map (g : Z -> Z) l : is_nil (map g l) = is_nil l.
@@ -610,10 +649,10 @@ Section Renaming.
       destruct IHk' as (K0 & K).
       { apply (env_ok_mono e n); [exact Hok|lia]. } { exact HD. } { exact (incl_app_r _ _ _ (incl_cons_r _ _ _ Hinc)). } { exact HDk. }
       split; [exact K0|].
-      destruct M as (M1 & M2 & M3 & M4 & M5 & M6 & M7 & M8 & M9 & M10 & M11).
-      destruct K as (K1 & K2 & K3 & K4 & K5 & K6 & K7 & K8 & K9 & K10 & K11).
+      destruct M as (M1 & M2 & M3 & M4 & M5 & M6 & M7 & M8 & M9 & M10 & M11 & M12 & M13).
+      destruct K as (K1 & K2 & K3 & K4 & K5 & K6 & K7 & K8 & K9 & K10 & K11 & K12 & K13).
       cbn [ren_env map ren_entry] in M1. fold (ren_env e) in M1.
-      unfold RR. cbn [resolve lexdecls vardecls headdecls allnames default_names params_only catch_params_only core_d pcore_d core app].
+      unfold RR. cbn [resolve lexdecls vardecls headdecls allnames default_names params_only catch_params_only core_d pcore_d core core_x pcore_x app].
       repeat apply conj; try discriminate.
       + rewrite M1, K1. cbn [map retarget app]. rewrite !map_app. reflexivity.
       + exact K2.
@@ -640,9 +679,9 @@ Section Renaming.
       destruct IHk' as (K0 & K).
       { apply (env_ok_mono e n); [exact Hok|lia]. } { exact HD. } { exact (incl_app_r _ _ _ Hinc). } { exact HDk. }
       split; [exact K0|].
-      destruct M as (M1 & M2 & M3 & M4 & M5 & M6 & M7 & M8 & M9 & M10 & M11).
-      destruct K as (K1 & K2 & K3 & K4 & K5 & K6 & K7 & K8 & K9 & K10 & K11).
-      unfold RR. cbn [resolve lexdecls vardecls headdecls allnames default_names params_only catch_params_only core_d pcore_d core app].
+      destruct M as (M1 & M2 & M3 & M4 & M5 & M6 & M7 & M8 & M9 & M10 & M11 & M12 & M13).
+      destruct K as (K1 & K2 & K3 & K4 & K5 & K6 & K7 & K8 & K9 & K10 & K11 & K12 & K13).
+      unfold RR. cbn [resolve lexdecls vardecls headdecls allnames default_names params_only catch_params_only core_d pcore_d core core_x pcore_x app].
       repeat apply conj; try discriminate.
       + rewrite M1, K1, !map_app. reflexivity.
       + exact K2.
@@ -656,6 +695,15 @@ Section Renaming.
       + intros H. apply andb_true_iff in H. destruct H as [H H5]. apply andb_true_iff in H. destruct H as [H H4].
         apply andb_true_iff in H. destruct H as [H H3]. apply andb_true_iff in H. destruct H as [H1 H2].
         rewrite M2, M3, !is_nil_map. rewrite (M9 H1), H2, H3, (K10 H5). rewrite M5, K4.
+        rewrite disj_newname; [reflexivity|exact HDm| | |].
+        * rewrite Hnm. exact (incl_app_l _ _ _ Hinc).
+        * intros x Hx. apply (Dt_in rk); [exact HDk|apply Hhk; exact Hx].
+        * rewrite Hnm. exact (disjointb_spec _ _ H4).
+      + intros H. apply andb_true_iff in H. destruct H as [H H4]. apply andb_true_iff in H. destruct H as [H H3].
+        apply andb_true_iff in H. destruct H as [H1 H2]. rewrite M2, M3, !is_nil_map. rewrite (M12 H1), H2, H3, (K12 H4). reflexivity.
+      + intros H. apply andb_true_iff in H. destruct H as [H H5]. apply andb_true_iff in H. destruct H as [H H4].
+        apply andb_true_iff in H. destruct H as [H H3]. apply andb_true_iff in H. destruct H as [H1 H2].
+        rewrite M2, M3, !is_nil_map. rewrite (M12 H1), H2, H3, (K13 H5). rewrite M5, K4.
         rewrite disj_newname; [reflexivity|exact HDm| | |].
         * rewrite Hnm. exact (incl_app_l _ _ _ Hinc).
         * intros x Hx. apply (Dt_in rk); [exact HDk|apply Hhk; exact Hx].
@@ -687,10 +735,10 @@ Section Renaming.
     destruct IHk' as (K0 & K).
     { apply (env_ok_mono e n); [exact Hok|lia]. } { exact HD. } { exact (incl_app_r _ _ _ (incl_cons_r _ _ _ Hinc)). } { exact HDk. }
     split; [exact K0|].
-    destruct B as (B1 & B2 & B3 & B4 & B5 & B6 & B7 & B8 & B9 & B10 & B11).
-    destruct K as (K1 & K2 & K3 & K4 & K5 & K6 & K7 & K8 & K9 & K10 & K11).
+    destruct B as (B1 & B2 & B3 & B4 & B5 & B6 & B7 & B8 & B9 & B10 & B11 & B12 & B13).
+    destruct K as (K1 & K2 & K3 & K4 & K5 & K6 & K7 & K8 & K9 & K10 & K11 & K12 & K13).
     cbn [ren_env map ren_entry app] in B1. fold (ren_env e) in B1. rewrite map_app in B1. rewrite <- B2, <- B3 in B1.
-    unfold RR. cbn [resolve lexdecls vardecls headdecls allnames default_names params_only catch_params_only core_d pcore_d core app].
+    unfold RR. cbn [resolve lexdecls vardecls headdecls allnames default_names params_only catch_params_only core_d pcore_d core core_x pcore_x app].
     repeat apply conj; try discriminate.
     - rewrite B1, K1. cbn [map retarget app]. rewrite !map_app. reflexivity.
     - exact K2.
@@ -720,9 +768,9 @@ Section Renaming.
     destruct IHk' as (K0 & K).
     { apply (env_ok_mono e n); [exact Hok|lia]. } { exact HD. } { exact (incl_app_r _ _ _ Hinc). } { exact HDk. }
     split; [exact K0|].
-    destruct H as (H1 & H2 & H3 & H4 & H5 & H6 & H7 & H8 & H9 & H10 & H11).
-    destruct K as (K1 & K2 & K3 & K4 & K5 & K6 & K7 & K8 & K9 & K10 & K11).
-    unfold RR. cbn [resolve lexdecls vardecls headdecls allnames default_names params_only catch_params_only core_d pcore_d core app].
+    destruct H as (H1 & H2 & H3 & H4 & H5 & H6 & H7 & H8 & H9 & H10 & H11 & H12 & H13).
+    destruct K as (K1 & K2 & K3 & K4 & K5 & K6 & K7 & K8 & K9 & K10 & K11 & K12 & K13).
+    unfold RR. cbn [resolve lexdecls vardecls headdecls allnames default_names params_only catch_params_only core_d pcore_d core core_x pcore_x app].
     repeat apply conj; try discriminate.
     - rewrite H1, K1, !map_app. reflexivity.
     - exact K2.
@@ -731,6 +779,22 @@ Section Renaming.
     - rewrite H5, K5, !map_app. reflexivity.
     - change (DN (rh ++ rk) (allnames h ++ default_names k) (allnames h' ++ default_names k')).
       rewrite H5, <- Hnh. apply DN_app; [apply DN_names|exact K6].
+  Qed.
+
+  Lemma disj_map_f_early L1 L2 s a t b :
+    (forall x, In x L1 -> D s a x) -> (forall y, In y L2 -> D t b y) -> (forall x, In x L1 -> ~ In x L2) ->
+    disjointb (map (f s a) L1) (map (f t b) L2) = true.
+  Proof.
+    intros H1 H2 Hd. unfold disjointb. apply forallb_forall. intros y Hy. apply negb_true_iff. apply mem_not_in.
+    intros Hin. apply in_map_iff in Hy. destruct Hy as (x1 & E1 & Hx1). apply in_map_iff in Hin. destruct Hin as (x2 & E2 & Hx2).
+    rewrite <- E1 in E2. destruct (f_inj _ _ _ _ _ _ (H2 x2 Hx2) (H1 x1 Hx1) E2) as (_ & _ & ->). apply (Hd x1 Hx1 Hx2).
+  Qed.
+
+  Lemma disjointb_app_r (a b c : list Z) : disjointb a (b ++ c) = disjointb a b && disjointb a c.
+  Proof.
+    unfold disjointb. induction a as [|x t IH]; [reflexivity|]. cbn [forallb]. rewrite IH.
+    assert (E : mem x (b ++ c) = mem x b || mem x c) by (unfold mem; apply existsb_app). rewrite E.
+    destruct (mem x b), (mem x c), (forallb (fun x0 => negb (mem x0 b)) t), (forallb (fun x0 => negb (mem x0 c)) t); reflexivity.
   Qed.
 
   Lemma rr_for h b k : rr_stmt h -> rr_stmt b -> rr_stmt k -> rr_stmt (For h b k).
@@ -767,11 +831,11 @@ Section Renaming.
     destruct IHk' as (K0 & K).
     { apply (env_ok_mono e n); [exact Hok|lia]. } { exact HD. } { exact (incl_app_r _ _ _ (incl_app_r _ _ _ Hinc)). } { exact HDk. }
     split; [exact K0|].
-    destruct H as (H1 & H2 & H3 & H4 & H5 & H6 & H7 & H8 & H9 & H10 & H11).
-    destruct B as (B1 & B2 & B3 & B4 & B5 & B6 & B7 & B8 & B9 & B10 & B11).
-    destruct K as (K1 & K2 & K3 & K4 & K5 & K6 & K7 & K8 & K9 & K10 & K11).
+    destruct H as (H1 & H2 & H3 & H4 & H5 & H6 & H7 & H8 & H9 & H10 & H11 & H12 & H13).
+    destruct B as (B1 & B2 & B3 & B4 & B5 & B6 & B7 & B8 & B9 & B10 & B11 & B12 & B13).
+    destruct K as (K1 & K2 & K3 & K4 & K5 & K6 & K7 & K8 & K9 & K10 & K11 & K12 & K13).
     cbn [ren_env map ren_entry] in H1, B1. fold (ren_env e) in H1, B1. rewrite <- H2 in H1. rewrite <- H2, <- B2 in B1.
-    unfold RR. cbn [resolve lexdecls vardecls headdecls allnames default_names params_only catch_params_only core_d pcore_d core app].
+    unfold RR. cbn [resolve lexdecls vardecls headdecls allnames default_names params_only catch_params_only core_d pcore_d core core_x pcore_x app].
     repeat apply conj; try discriminate.
     - rewrite H1, B1, K1, !map_app. reflexivity.
     - exact K2.
@@ -780,6 +844,22 @@ Section Renaming.
     - rewrite H5, B5, K5, !map_app. reflexivity.
     - change (DN (rh ++ rb ++ rk) (allnames h ++ allnames b ++ default_names k) (allnames h' ++ allnames b' ++ default_names k')).
       rewrite H5, B5, <- Hnh, <- Hnb. apply DN_app; [apply DN_names|]. apply DN_app; [apply DN_names|exact K6].
+    - intros Hc. apply andb_true_iff in Hc. destruct Hc as [Hc C5]. apply andb_true_iff in Hc. destruct Hc as [Hc C4].
+      apply andb_true_iff in Hc. destruct Hc as [Hc C3]. apply andb_true_iff in Hc. destruct Hc as [C1 C2].
+      pose proof (vardecls_targets h ((n, true, lexdecls h) :: e) fs n true (S n)) as Hvh. rewrite Eh in Hvh. cbn [fst] in Hvh.
+      rewrite (H12 C1), (B12 C2), (K12 C3). cbn [andb]. apply andb_true_iff. split.
+      + rewrite H5, B2. apply disj_newname; [exact HDh| | |].
+        * rewrite Hnh. exact (incl_app_l _ _ _ Hinc).
+        * intros x Hx. apply (Dt_in rb); [exact HDb|apply Hlb; exact Hx].
+        * rewrite Hnh. exact (disjointb_spec _ _ C4).
+      + rewrite H3, H2, B2, disjointb_app_r. pose proof (disjointb_spec _ _ C5) as C5'.
+        apply andb_true_iff. split; apply disj_map_f_early.
+        * intros x Hx. apply (Dt_in rh); [exact HDh|apply Hvh; exact Hx].
+        * intros x Hx. apply (Dt_in rh); [exact HDh|apply Hlh; exact Hx].
+        * intros x Hx Hi. apply (C5' x Hx). apply in_app_iff. left. exact Hi.
+        * intros x Hx. apply (Dt_in rh); [exact HDh|apply Hvh; exact Hx].
+        * intros x Hx. apply (Dt_in rb); [exact HDb|apply Hlb; exact Hx].
+        * intros x Hx Hi. apply (C5' x Hx). apply in_app_iff. right. exact Hi.
   Qed.
 
   Lemma disj_map_f L1 L2 s a t b :
@@ -827,14 +907,14 @@ Section Renaming.
     destruct IHk' as (K0 & K).
     { apply (env_ok_mono e n); [exact Hok|lia]. } { exact HD. } { exact (incl_app_r _ _ _ (incl_app_r _ _ _ Hinc)). } { exact HDk. }
     split; [exact K0|].
-    destruct H as (H1 & H2 & H3 & H4 & H5 & H6 & H7 & H8 & H9 & H10 & H11).
-    destruct B as (B1 & B2 & B3 & B4 & B5 & B6 & B7 & B8 & B9 & B10 & B11).
-    destruct K as (K1 & K2 & K3 & K4 & K5 & K6 & K7 & K8 & K9 & K10 & K11).
+    destruct H as (H1 & H2 & H3 & H4 & H5 & H6 & H7 & H8 & H9 & H10 & H11 & H12 & H13).
+    destruct B as (B1 & B2 & B3 & B4 & B5 & B6 & B7 & B8 & B9 & B10 & B11 & B12 & B13).
+    destruct K as (K1 & K2 & K3 & K4 & K5 & K6 & K7 & K8 & K9 & K10 & K11 & K12 & K13).
     cbn [ren_env map ren_entry] in H1, B1. fold (ren_env e) in H1, B1. rewrite map_app in B1. rewrite <- H4 in H1. rewrite <- H4, <- B2 in B1.
     assert (Hdisj : disjointb (headdecls h) (vardecls b) = true -> disjointb (headdecls h') (vardecls b') = true).
     { intros Hd. rewrite H4, B3. apply disj_map_f; [exact Dhead| |exact (disjointb_spec _ _ Hd)].
       intros y Hy. apply (Dt_in rb); [exact HDb|apply Hvb; exact Hy]. }
-    unfold RR. cbn [resolve lexdecls vardecls headdecls allnames default_names params_only catch_params_only core_d pcore_d core app].
+    unfold RR. cbn [resolve lexdecls vardecls headdecls allnames default_names params_only catch_params_only core_d pcore_d core core_x pcore_x app].
     repeat apply conj; try discriminate.
     - rewrite H1, B1, K1, !map_app. reflexivity.
     - exact K2.
@@ -847,6 +927,8 @@ Section Renaming.
       apply andb_true_iff in Hc. destruct Hc as [C1 C2]. rewrite (H8 C1), (Hdisj C2), (B9 C3), (K9 C4). reflexivity.
     - intros Hc. apply andb_true_iff in Hc. destruct Hc as [Hc C4]. apply andb_true_iff in Hc. destruct Hc as [Hc C3].
       apply andb_true_iff in Hc. destruct Hc as [C1 C2]. rewrite (H8 C1), (Hdisj C2), (B11 C3), (K11 C4). reflexivity.
+    - intros Hc. apply andb_true_iff in Hc. destruct Hc as [Hc C4]. apply andb_true_iff in Hc. destruct Hc as [Hc C3].
+      apply andb_true_iff in Hc. destruct Hc as [C1 C2]. rewrite (H8 C1), (Hdisj C2), (B12 C3), (K12 C4). reflexivity.
   Qed.
 
   (* renaming every occurrence after its declaration, with fresh and distinct names, commutes with the declarative
